@@ -37,15 +37,17 @@ Fams == {"l1", "cat", "alt", "grp", "fixed", "two"}
 \* C11: matcher-level option sets (inversion is not a matcher option) and extra families
 MatcherOptSets == {o \in OptSets : ~o.inv} \cup {[Plain EXCEPT !.nul = TRUE], [Plain EXCEPT !.ci = TRUE, !.crlf = TRUE],
                                                  [Plain EXCEPT !.word = TRUE, !.crlf = TRUE]}
-C11Fams == Fams \cup {"lf", "inner"}
+C11Fams == Fams \cup {"lf", "inner", "altlit"}
 C11Seeds == {[o |-> o, fam |-> f, pats |-> <<>>, fixed |-> FALSE] : o \in MatcherOptSets, f \in C11Fams}
-C11SeedsQuick == {s \in C11Seeds : s.fam \in {"l1", "alt", "grp", "lf", "inner", "two"}}
+C11SeedsQuick == {s \in C11Seeds : s.fam \in {"l1", "alt", "grp", "lf", "inner", "two", "altlit"}}
 WPlus == URep(UWCls(FALSE), 1, Inf, TRUE)
+NWStar == URep(UWCls(TRUE), 0, Inf, TRUE)
+NWPlus == URep(UWCls(TRUE), 1, Inf, TRUE)
 QuickOptSets == { Plain, [Plain EXCEPT !.ci = TRUE], [Plain EXCEPT !.crlf = TRUE], [Plain EXCEPT !.word = TRUE],
                   [Plain EXCEPT !.line = TRUE, !.inv = TRUE], [Plain EXCEPT !.smart = TRUE, !.word = TRUE],
                   [Plain EXCEPT !.nul = TRUE] }
-MCSeeds == {[o |-> o, fam |-> f, pats |-> <<>>, fixed |-> FALSE] : o \in OptSets, f \in Fams}
-MCSeedsQuick == {[o |-> o, fam |-> f, pats |-> <<>>, fixed |-> FALSE] : o \in QuickOptSets, f \in (Fams \ {"cat"}) \cup {"catq", "innerq"}}
+MCSeeds == {[o |-> o, fam |-> f, pats |-> <<>>, fixed |-> FALSE] : o \in OptSets, f \in Fams \cup {"altlit"}}
+MCSeedsQuick == {[o |-> o, fam |-> f, pats |-> <<>>, fixed |-> FALSE] : o \in QuickOptSets, f \in (Fams \ {"cat"}) \cup {"catq", "innerq", "altlit"}}
 Sc(ps, o, fx) == [pats |-> ps, o |-> o, fixed |-> fx, fam |-> "", sel |-> <<>>]
 MCPatternsOf(sd) ==
   LET o == sd.o IN
@@ -66,7 +68,18 @@ MCPatternsOf(sd) ==
     [] sd.fam = "innerq" -> {[sd EXCEPT !.pats = <<UCat(x, UCat(y, ULit(SB)))>>] :
                                x \in {UCat(WPlus, ULit(SB)), ULook("wb"), ULit(SB)},
                                y \in {URep(ULit(SA), 12, 12, TRUE), URep(ULit(SA), 0, 2, TRUE), URep(ULit(SA), 2, 2, TRUE), URep(ULit(SA), 1, 3, TRUE)}}
+    \* a literal, a group of alternatives of which some hold a literal and some none, a literal:  \ba(\W*A\W*|\W+)b
+    [] sd.fam = "altlit" -> {[sd EXCEPT !.pats = <<UCat(x, UCat(ULit(SA), UCat(UGrp(y, TRUE), ULit(SB))))>>] :
+                               x \in {ULook("wb"), WPlus, URep(UDot, 0, 1, TRUE)},
+                               y \in {UAlt(UCat(NWStar, UCat(ULit(SUA), NWStar)), NWPlus), UAlt(NWPlus, UCat(NWStar, ULit(SUA))),
+                                      UAlt(UCat(URep(ULit(SSP), 0, Inf, TRUE), ULit(SDOT)), URep(ULit(SSP), 1, Inf, TRUE)),
+                                      UAlt(UCat(NWStar, ULit(SUA)), UAlt(ULit(SDOT), NWPlus)),
+                                      UAlt(UCat(ULit(SUA), ULit(SDOT)), URep(UDot, 0, Inf, TRUE))}}
     [] sd.fam = "two" -> {[sd EXCEPT !.pats = <<x, y>>] : x \in Leaves, y \in {ULit(SUA), ULit(SB), UCat(ULit(SA), ULit(SB))}}
+                         \* two patterns whose texts differ only in the case of a letter
+                         \cup {[sd EXCEPT !.pats = pr] : pr \in {<<UWCls(FALSE), UWCls(TRUE)>>, <<UWCls(TRUE), UWCls(FALSE)>>,
+                                                                 <<ULook("wb"), ULook("nwb")>>, <<ULook("nwb"), ULook("wb")>>,
+                                                                 <<UCat(ULit(SA), UWCls(TRUE)), UCat(ULit(SUA), UWCls(FALSE))>>}}
 MCWordSyms == {1, 2, 3, 4, 5, 6, 10, 11}
 NulSeeds == {[o |-> [Plain EXCEPT !.nul = TRUE], fam |-> f, pats |-> <<>>, fixed |-> FALSE] : f \in {"l1", "alt"}}
 TinySeeds == {[o |-> Plain, fam |-> "fixed", pats |-> <<>>, fixed |-> FALSE]}
